@@ -14,20 +14,22 @@ import MindsVerif.Gen.Reserved
 
 Specification: `Denote` (what a literal *is* — `items` — and what it denotes), independent of the code.
 
-**Main theorems for the live code** (string codec of /repo 2843e02 = `Model/Codec.lean`: one left-to-right
-`unescape_string` in the three grammars, the same string regexes in the three lexers, `Constant.get_string` escaping
-backslashes; tied to the code by the correspondence streams whenever `Gen.RenderPins.codecFixed = true`):
-`C04_codec_decode`, `C04_codec_encode`, `C04_codec_roundtrip` — the FULL statements, all strings, all dialects, no
-hypotheses.  Identifiers: `C04_identifier_{mindsdb,mysql,sqlite}` (+ `C04_identifier_bq_*` for the doubled
-back-quote codec of `docs/proposed_fixes/C04_4.diff`, live when `bqDoubled`), Φ4 obligations `phi4_*`; integers
-`C04_integer`.
+**Theorems about the models tied to the live code** (which model is live is itself an obligation: `C04_live_models`):
+* strings — `Model/Codec.lean` (one left-to-right `unescape_string` in the three grammars, the same string regexes in
+  the three lexers, `Constant.get_string` escaping backslashes): `C04_codec_decode`, `C04_codec_encode`,
+  `C04_codec_roundtrip` — the FULL statements, all strings, all dialects, no hypotheses; `C04_scan_quote` /
+  `C04_scan_dquote` (token boundary of the live regexes on every specification literal);
+* identifiers — `Model/LexBq.lean` (back-quote inside a part doubled): `C04_identifier_bq_{generic,mindsdb,mysql,sqlite}`
+  (every list of non-empty parts), Φ4 obligations `phi4_*`, `phi4h_*` on the generated keyword tables;
+* numbers — `C04_review_integer_lex` (print → scanner model `lexNumber`, every natural number, all dialects),
+  `C04_integer`; floats are probe-only;
+* variables — `C04_variable` (every denotable name), `C04_witness_variable`.
 
-**History / regression examples** (the codec before 2843e02 = `Model/Lex.lean`: chained `replace` + `strip` in
-MindsDB, escape-less sqlite / mysql lexers, printer without backslash escaping): the `_partial` theorems
-(`C04_decode_partial`, `C04_decode_dquote_partial`, `C04_decode_simple_partial`, `C04_encode_partial`,
-`C04_roundtrip_*_partial`) delimit exactly where that code was right, and the `C04_witness_*` theorems exhibit the
-defects that were repaired (KF-C04-1 … -5, fixed).  They remain true statements about `Lex`; the example next to
-`C04_codec_roundtrip` shows the same inputs decoded correctly by `Codec`.
+**History / regression theorems about the OLD variants** (all named `C04_old_*`; `Model/Lex.lean`: chained `replace` +
+`strip` in MindsDB, escape-less sqlite / mysql lexers, printer without backslash escaping, identifier codec without the
+doubled back-quote): the `C04_old_*_partial` theorems delimit exactly where that code was right, the
+`C04_old_witness_*` theorems exhibit the defects that were repaired, `C04_old_identifier_*` is the identifier round
+trip of the old printer.  They remain true statements about `Lex`; no stream drives these functions any more.
 -/
 namespace MindsVerif.Props.C04
 open MindsVerif MindsVerif.Py MindsVerif.Lex MindsVerif.Denote MindsVerif.Literal MindsVerif.Gen
@@ -62,8 +64,8 @@ def C04_full_ident (K : KwTable) (reserved : List (List Char)) : Prop :=
 -- (stream `scan` drives `scanq/scandq mindsdb`), so these two are not history although they stand in this section;
 -- the decoders `quoteString` / `unescQuote` / `Lex.constantToString` used by the `_partial` theorems are history.
 -- For identifiers the live (tied) model is `LexBq` (`parts2` / `ident2`): the main identifier theorems for the live
--- code are `C04_identifier_bq_*` below; `C04_identifier_{mindsdb,mysql,sqlite}`, `C04_witness_ident` and
--- `C04_witness_backquote` speak about `Lex.partsToStr` / `Lex.lexIdentPath`, which no stream drives any more.
+-- code are `C04_identifier_bq_*` below; `C04_identifier_{mindsdb,mysql,sqlite}`, `C04_old_witness_ident` and
+-- `C04_old_witness_backquote` speak about `Lex.partsToStr` / `Lex.lexIdentPath`, which no stream drives any more.
 
 /-- the MindsDB `QUOTE_STRING` regex, with Python's backtracking, matches exactly a specification literal
 (for *every* literal, including the known-finding classes: the token boundary is always right) -/
@@ -82,7 +84,7 @@ theorem C04_scan_dquote (items : List Item) (rest : List Char) (hw : WF '"' fals
 the escape `\\` (KF-C04-1), literals whose value starts or ends with a quote (KF-C04-2), an escaped
 quote directly followed by another escaped/doubled quote (KF-C04-3; the code fails only when the run holds
 two `\'`, the hypothesis is slightly stronger). -/
-theorem C04_decode_partial (items : List Item) (rest : List Char) (hw : WF '\'' true items)
+theorem C04_old_decode_partial (items : List Item) (rest : List Char) (hw : WF '\'' true items)
     (hr : rest.head? ≠ some '\'')
     (h1 : hasEscBackslash items = false) (h2 : edgeQuote '\'' items = false)
     (h3 : escQuoteRun '\'' items = false) :
@@ -95,7 +97,7 @@ theorem C04_decode_partial (items : List Item) (rest : List Char) (hw : WF '\'' 
   simp only [readString, hs, Option.map_some, hd]
 
 /-- **T4.1 (MindsDB, double quotes), partial**: outside KF-C04-1 / KF-C04-2. -/
-theorem C04_decode_dquote_partial (items : List Item) (rest : List Char) (hw : WF '"' false items)
+theorem C04_old_decode_dquote_partial (items : List Item) (rest : List Char) (hw : WF '"' false items)
     (h1 : hasEscBackslash items = false) (h2 : edgeQuote '"' items = false) :
     readString .mindsdb (srcLit '"' items ++ rest) = some (denote '"' items, rest) := by
   have hs := C04_scan_dquote items rest hw
@@ -107,7 +109,7 @@ theorem C04_decode_dquote_partial (items : List Item) (rest : List Char) (hw : W
 
 /-- **T4.1 (sqlite, mysql), partial**: the escape-less lexers are right exactly on literals that use no
 escape (KF-C04-4 is the complement). Both quote kinds. -/
-theorem C04_decode_simple_partial (d : Dialect) (hd : d ≠ .mindsdb) (items : List Item) (rest : List Char) :
+theorem C04_old_decode_simple_partial (d : Dialect) (hd : d ≠ .mindsdb) (items : List Item) (rest : List Char) :
     (WF '\'' true items → usesEscape items = false →
       readString d (srcLit '\'' items ++ rest) = some (denote '\'' items, rest)) ∧
     (WF '"' false items → usesEscape items = false →
@@ -137,7 +139,7 @@ theorem C04_decode_simple_partial (d : Dialect) (hd : d ≠ .mindsdb) (items : L
 /-- **T4.2, partial.** `Constant.get_string` of a value in which every backslash is followed by a character
 other than `\`, `'`, `"` is one specification literal denoting the value. Missing: the other values
 (KF-C04-5: the printer never escapes a backslash). -/
-theorem C04_encode_partial (v rest : List Char) (hv : encOK v = true) (hr : rest.head? ≠ some '\'') :
+theorem C04_old_encode_partial (v rest : List Char) (hv : encOK v = true) (hr : rest.head? ≠ some '\'') :
     Denote.scan '\'' true (constantToString v ++ rest) = some (encItems v, rest) ∧
       denote '\'' (encItems v) = v := by
   obtain ⟨e1, e2, e3⟩ := enc_main v hv
@@ -150,19 +152,19 @@ theorem C04_encode_partial (v rest : List Char) (hv : encOK v = true) (hr : rest
 /-- **MindsDB round trip, partial.** `parse (Constant(v).to_string())` holds `v` again for every value in which every
 backslash is followed by a character other than `\ ' "` (else KF-C04-5), that does not start or end with a
 quote (`edgeQuote` of its printed items, KF-C04-2) and has no two adjacent quotes (`escQuoteRun`, KF-C04-3). -/
-theorem C04_roundtrip_mindsdb_partial (v rest : List Char) (hv : encOK v = true) (hr : rest.head? ≠ some '\'')
+theorem C04_old_roundtrip_mindsdb_partial (v rest : List Char) (hv : encOK v = true) (hr : rest.head? ≠ some '\'')
     (h2 : edgeQuote '\'' (Denote.encItems v) = false) (h3 : escQuoteRun '\'' (Denote.encItems v) = false) :
     readString .mindsdb (constantToString v ++ rest) = some (v, rest) :=
   Codec.roundtrip_mindsdb v rest hv hr h2 h3
 
 /-- **sqlite / mysql round trip, partial.** Exactly the values without a single quote are read back (any
 backslashes included); a quote prints as `\'`, which these lexers do not read (KF-C04-4). -/
-theorem C04_roundtrip_simple_partial (d : Dialect) (hd : d ≠ .mindsdb) (v rest : List Char)
+theorem C04_old_roundtrip_simple_partial (d : Dialect) (hd : d ≠ .mindsdb) (v rest : List Char)
     (hv : ∀ c ∈ v, c ≠ '\'') : readString d (constantToString v ++ rest) = some (v, rest) :=
   Codec.roundtrip_simple d hd v rest hv
 
 /-- the round trip fails in each excluded class -/
-theorem C04_witness_roundtrip :
+theorem C04_old_witness_roundtrip :
     readString .mindsdb (constantToString ['a', '\'', '\'', 'b']) = some (['a', '\'', 'b'], []) ∧
     readString .mindsdb (constantToString ['\'', 'a']) = some (['a'], []) ∧
     readString .mindsdb (constantToString ['\\']) = some ([], []) ∧
@@ -265,6 +267,11 @@ theorem C04_review_integer_lex (d : Dialect) (n : Nat) :
 /-- (SLY's `@_` decorator stores each pattern wrapped in one group) -/
 example : Lex_mindsdb.QUOTE_STRING = "('(?:\\\\.|[^'])*(?:''(?:\\\\.|[^'])*)*')" := by decide
 example : Lex_mindsdb.DQUOTE_STRING = "(\"(?:\\\\.|[^\"])*\")" := by decide
+/-- which models are tied to the live code: the one-scan string codec (`Model/Codec.lean`) and the identifier codec with
+doubled back-quotes (`Model/LexBq.lean`).  A tree that falls back to an old variant breaks this obligation (the
+`C04_old_*` theorems would then be the applicable ones, and the check ties `Model/Lex.lean` again). -/
+theorem C04_live_models : RenderPins.codecFixed = true ∧ RenderPins.bqDoubled = true := by decide
+
 /-- sqlite / mysql string regexes: either the escape-less ones of the pinned tree, or — once
 `docs/proposed_fixes/C04_2.diff` is live (`codecFixed`) — the same regexes as the MindsDB lexer -/
 example :
@@ -321,7 +328,7 @@ theorem phi4_sqlite : offenders K_sqlite reservedL = [] := by decide +kernel
 (KF-C04-7) and are not (case-insensitively) one of the `kf` words prints to a path that lexer + `id` /
 `identifier` actions + `path_str_to_parts` read back as the same parts: case preserved, split only at unquoted
 dots, keywords / digits-first / dotted / blank / non-ASCII parts all included. -/
-theorem C04_identifier_partial (K : KwTable) (reserved kf : List (List Char))
+theorem C04_old_identifier_partial (K : KwTable) (reserved kf : List (List Char))
     (h : Ident.phi4 K reserved kf = true) (parts : List (List Char)) (hne : parts ≠ [])
     (hp : ∀ p ∈ parts, Ident.PartOK kf p) :
     lexIdentPath K (partsToStr reserved parts) = some parts :=
@@ -336,15 +343,15 @@ abbrev PartRep (p : List Char) : Prop := p ≠ [] ∧ ∀ x ∈ p, x ≠ '`'
 
 theorem partOK_of_rep {p : List Char} (h : PartRep p) : Ident.PartOK [] p := ⟨h.1, h.2, rfl⟩
 
-theorem C04_identifier_mindsdb (parts : List (List Char)) (hne : parts ≠ []) (hp : ∀ p ∈ parts, PartRep p) :
+theorem C04_old_identifier_mindsdb (parts : List (List Char)) (hne : parts ≠ []) (hp : ∀ p ∈ parts, PartRep p) :
     lexIdentPath K_mindsdb (partsToStr reservedL parts) = some parts :=
-  C04_identifier_partial _ _ _ phi4h_mindsdb parts hne fun p h => partOK_of_rep (hp p h)
-theorem C04_identifier_mysql (parts : List (List Char)) (hne : parts ≠ []) (hp : ∀ p ∈ parts, PartRep p) :
+  C04_old_identifier_partial _ _ _ phi4h_mindsdb parts hne fun p h => partOK_of_rep (hp p h)
+theorem C04_old_identifier_mysql (parts : List (List Char)) (hne : parts ≠ []) (hp : ∀ p ∈ parts, PartRep p) :
     lexIdentPath K_mysql (partsToStr reservedL parts) = some parts :=
-  C04_identifier_partial _ _ _ phi4h_mysql parts hne fun p h => partOK_of_rep (hp p h)
-theorem C04_identifier_sqlite (parts : List (List Char)) (hne : parts ≠ []) (hp : ∀ p ∈ parts, PartRep p) :
+  C04_old_identifier_partial _ _ _ phi4h_mysql parts hne fun p h => partOK_of_rep (hp p h)
+theorem C04_old_identifier_sqlite (parts : List (List Char)) (hne : parts ≠ []) (hp : ∀ p ∈ parts, PartRep p) :
     lexIdentPath K_sqlite (partsToStr reservedL parts) = some parts :=
-  C04_identifier_partial _ _ _ phi4h_sqlite parts hne fun p h => partOK_of_rep (hp p h)
+  C04_old_identifier_partial _ _ _ phi4h_sqlite parts hne fun p h => partOK_of_rep (hp p h)
 
 /-! ## T4.3 for the identifier codec of `docs/proposed_fixes/C04_4.diff` (`Model/LexBq.lean`): back-quotes doubled
 
@@ -417,29 +424,29 @@ example : Lex_mindsdb.SYSTEM_VARIABLE = "(@@[a-zA-Z_.$]+)|(@@'[a-zA-Z_.$][^']*')
 /-! ## regression examples: the defects of the old codec (all fixed), and the one open class (KF-C04-7) -/
 
 /-- KF-C04-2: `''''` denotes one quote, the decoder returns the empty string -/
-theorem C04_witness_edge : ¬ C04_full_decode .mindsdb := by
+theorem C04_old_witness_edge : ¬ C04_full_decode .mindsdb := by
   intro h
   have := h [.qq] [] (by decide) (by decide)
   revert this; decide
 
 /-- KF-C04-1: `'a\\b'` denotes `a\b`, the decoder keeps both backslashes -/
-theorem C04_witness_escbs :
+theorem C04_old_witness_escbs :
     readString .mindsdb (srcLit '\'' [.ch 'a', .esc '\\', .ch 'b']) ≠
       some (denote '\'' [.ch 'a', .esc '\\', .ch 'b'], []) := by decide
 
 /-- KF-C04-3: `'a\'\'b'` denotes `a''b`, the decoder returns `a'b` -/
-theorem C04_witness_run :
+theorem C04_old_witness_run :
     readString .mindsdb (srcLit '\'' [.ch 'a', .esc '\'', .esc '\'', .ch 'b']) = some (['a', '\'', 'b'], []) ∧
       denote '\'' [.ch 'a', .esc '\'', .esc '\'', .ch 'b'] = ['a', '\'', '\'', 'b'] := by decide
 
 /-- KF-C04-4: `'a''b'` in sqlite / mysql: the token ends after `'a'` -/
-theorem C04_witness_simple : ¬ C04_full_decode .sqlite ∧ ¬ C04_full_decode .mysql := by
+theorem C04_old_witness_simple : ¬ C04_full_decode .sqlite ∧ ¬ C04_full_decode .mysql := by
   constructor <;> intro h <;>
     · have := h [.ch 'a', .qq, .ch 'b'] [] (by decide) (by decide)
       revert this; decide
 
 /-- KF-C04-5: the value `\` prints as `'\'`, which is not a terminated literal -/
-theorem C04_witness_encode : ¬ C04_full_encode := by
+theorem C04_old_witness_encode : ¬ C04_full_encode := by
   intro h
   obtain ⟨items, hs, _⟩ := h ['\\'] [] (by decide)
   have hn : Denote.scan '\'' true (constantToString ['\\'] ++ []) = none := by decide
@@ -447,7 +454,7 @@ theorem C04_witness_encode : ¬ C04_full_encode := by
   exact absurd hs (by simp)
 
 /-- regression example for the repaired KF-C04-6 (fixed: 6326372): `primary_key` is printed back-quoted and read back -/
-theorem C04_witness_ident :
+theorem C04_old_witness_ident :
     partsToStr reservedL [['p','r','i','m','a','r','y','_','k','e','y']] = ['`','p','r','i','m','a','r','y','_','k','e','y','`'] ∧
     lexIdentPath K_mindsdb (partsToStr reservedL [['p','r','i','m','a','r','y','_','k','e','y']]) =
       some [['p','r','i','m','a','r','y','_','k','e','y']] := by decide +kernel
@@ -456,7 +463,7 @@ theorem C04_witness_ident :
 -- before the doubled back-quote).  The live code (`bqDoubled = true`) reads ``a`b`` back: see the example after
 -- `C04_identifier_bq_sqlite`.
 /-- KF-C04-7 (history, codec without doubled back-quotes): a part containing a back-quote is not read back -/
-theorem C04_witness_backquote : ¬ C04_full_ident K_mindsdb reservedL := by
+theorem C04_old_witness_backquote : ¬ C04_full_ident K_mindsdb reservedL := by
   intro h
   have := h [['a', '`', 'b']] (by decide) (by decide)
   revert this; decide +kernel
